@@ -106,8 +106,42 @@ def b_notes(b):
     return "; ".join(getattr(b, "notes", []))
 
 
+def long_history(b, sym):
+    """12 generations; a second format is first recorded in generation 2-9; the content changes at generation 10 or later:
+    the reference stays the first recorded digest of each format (generation order is numeric, not textual)"""
+    b.mkfile("R/f.txt", 1)
+    added_at = sym.choose("second_format_first_recorded_in_generation", [2, 5, 9])
+    altered_at = sym.choose("content_altered_from_generation", [10, 11])
+    restored_at = sym.choose("content_restored_in_generation", [0, 12])
+    first = {}
+    for g in range(1, 13):
+        if g == altered_at:
+            b.alter("R/f.txt", 2)
+        if g == restored_at:
+            b.alter("R/f.txt", 1)
+        req = ["md5"] if g < added_at else (["xxh64"] if g % 2 else ["md5", "xxh64"])
+        r = b.run("create", root="R", h=req, n=True)
+        rec = b.manifests("R")[-1].record("f.txt")
+        b.require(rec is not None, "file-recorded-once", "gen %d" % g)
+        cur = {f: b.H(f, "R/f.txt") for f in ("md5", "xxh64")}
+        failed = False
+        for e in rec.entries:
+            if e.fmt in first:
+                same = truth(cur[e.fmt] == first[e.fmt])
+                exp = "verified" if same else "failed"
+                failed = failed or not same
+                b.require(e.action == exp, "action-vs-first-recorded", "gen %d %s: action %s, expected %s" % (g, e.fmt, e.action, exp))
+            else:
+                b.require(e.action == ("original" if g == 1 else "verified"), "new-format-verified", "gen %d %s action %s" % (g, e.fmt, e.action))
+        b.require(r.exit == (11 if failed else 0), "exit-code", "gen %d: exit %s exc %s" % (g, r.exit, r.exc))
+        for e in rec.entries:
+            first.setdefault(e.fmt, cur[e.fmt])
+
+
 def harnesses(tier):
-    hs = []
+    hs = [Harness("c04-long", long_history, frontier=3, budget_s=900,
+                  what="12 generations: a second format first recorded in generation 2/5/9, content altered from generation 10/11, optionally restored in 12",
+                  bounds={"generations": 12, "formats": ["md5", "xxh64"]}, outside=[])]
     if tier == "quick":
         cfg = [(3, 3, "folder"), (4, 2, "folder"), (2, 3, "sf"), (2, 2, "nested"), (2, 2, "parent-of-nested")]
     else:
